@@ -102,6 +102,7 @@ type vfSessCfg struct {
 	duration    int // 0: none
 	steps       int
 	deleteAfter int // >0: DELETE after that many steps
+	idleMS      int // >0: after the steps the session is left alone for that long (real time): a step-mode session sends nothing on its own
 	recvFail    string
 }
 
@@ -130,6 +131,7 @@ func TestVerifC16(t *testing.T) {
 	var cases []vfSessCfg
 	base := []vfSessCfg{
 		{asset: "testpic_2s", mpd: "Manifest.mpd", cfg: "", testNowMS: 100500, steps: 3},
+		{asset: "testpic_2s", mpd: "Manifest.mpd", cfg: "", testNowMS: 101900, steps: 1, idleMS: 2600}, // the next segment would be due 2.1 s after the test instant
 		{asset: "testpic_2s", mpd: "Manifest.mpd", cfg: "segtimeline_1", testNowMS: 100500, steps: 4, streams: true},
 		{asset: "testpic_2s", mpd: "Manifest.mpd", cfg: "segtimeline_1", testNowMS: 31999, steps: 5, user: "u1", pass: "secret"},
 		{asset: "testpic_2s", mpd: "Manifest.mpd", cfg: "", testNowMS: 100500, duration: 8, steps: 4},
@@ -503,6 +505,14 @@ func vfC16Session(r *rep.R, s *Server, a *ora.Asset, c vfSessCfg, ci int) {
 			}
 		case <-time.After(20 * time.Second):
 			r.Violation("step-request-never-returned-on-ended-session", det(""))
+			return
+		}
+	}
+	if c.idleMS > 0 {
+		before := len(rc.snapshot())
+		time.Sleep(time.Duration(c.idleMS) * time.Millisecond)
+		if after := len(rc.snapshot()); after != before {
+			r.Violation("step-mode-session-sent-without-a-step", det(fmt.Sprintf("%d further PUTs arrived while the session was left alone for %d ms", after-before, c.idleMS)))
 			return
 		}
 	}
